@@ -18,8 +18,8 @@ func init() {
 			{Pkg: "buffer", Entry: "VerifH10d", What: "NewReader: limit = 16 MiB for every non-positive setting, else the setting (all 2^64 ints)",
 				Quick: map[string]int{}, Witnesses: []string{"default", "configured"}},
 			{Pkg: "wire", Entry: "VerifH10c", What: "session: oversized message of any type skipped in full, one non-fatal 54000 ErrorResponse, next message processed normally",
-				Quick: map[string]int{"LVAR": 3, "OVER": 3}, Thorough: map[string]int{"LVAR": 5, "OVER": 5},
-				Witnesses: []string{"oversized-first", "oversized-in-the-middle"}},
+				Quick: map[string]int{"LVAR": 3, "OVER": 3, "DISCARD": 1}, Thorough: map[string]int{"LVAR": 5, "OVER": 5, "DISCARD": 1},
+				Witnesses: []string{"oversized-first", "oversized-in-the-middle", "oversized-while-discarding"}},
 			{Pkg: "wire", Entry: "VerifH10e", What: "startup packet declaring a length below 4 or above the limit: connection ends, no session",
 				Quick: map[string]int{"REST": 6}, Witnesses: []string{"startup-length-below-minimum", "startup-length-above-limit"}},
 			{Pkg: "wire", Entry: "VerifH11", What: "the configured limit is the one in force on a TLS-upgraded connection and on a connection whose SSLRequest was refused",
@@ -38,6 +38,9 @@ func init() {
 		Runs: []HarnessRun{
 			{Pkg: "buffer", Entry: "VerifH18a", What: "reset: new window lies behind the old one inside its capacity, or in a fresh array of cap max(size,4096)",
 				Quick: map[string]int{}, Witnesses: []string{"fresh", "reused"}},
+			{Pkg: "buffer", Entry: "VerifH18k", What: "K successive windows from a fresh reader, sizes symbolic in 0..9000 with symbolic consumption in between: every window stays disjoint from every later one (covers reader state beyond the window header)",
+				Quick: map[string]int{"K": 5, "SMAX": 9000}, Thorough: map[string]int{"K": 6, "SMAX": 9000},
+				Witnesses: []string{"large-window", "same-array-reused"}},
 			{Pkg: "wire", Entry: "VerifH18b", What: "retained query text and parameter value equal their private copies after K later messages with sizes around the 4 KiB granule and the limit",
 				Quick: map[string]int{"K": 2}, Thorough: map[string]int{"K": 3},
 				Witnesses: []string{"later-message-near-granule", "later-oversized-message", "large-retained-message", "abandoned-copy", "rejected-parse-then-skipped-messages"}},
